@@ -1,7 +1,8 @@
 /- C02 — Delivered messages are authentic and untampered; C19 — nonces are never reused;
 C15 (handler part) — sessions expire and the session cache is bounded.  Handler model. -/
-import Discv5Model.Model.HandlerSpec
+import Discv5Model.Proofs.HandlerCrypto
 namespace Discv5.H
+open Cr
 
 /-- Whatever is handed to the application as a request or response of `na` in reaction to a
 message datagram is the plaintext of an AEAD term sealed under the current or previous decryption
@@ -13,7 +14,16 @@ theorem delivered_was_sealed (c : Cfg) (s : HState) (src : Addr) (srcId nonce : 
     ∃ key ctr pt sess stamp, ct = .enc key nonce ctr pt true ∧
       ({ id := srcId, addr := src }, sess, stamp) ∈ s.sessions ∧
       (key = sess.keys.dec ∨ ∃ old, sess.oldKeys = some old ∧ key = old.dec) := by
-  sorry
+  have h := handleMessage_out c { id := srcId, addr := src } nonce ct
+    (fun o => ((∃ rid b, o = .request { id := srcId, addr := src } rid b) ∨
+          (∃ na rid rb, o = .response na rid rb) ∨ (∃ r a d, o = .established r a d)) →
+          SealedFor s { id := srcId, addr := src } nonce ct) (s, [])
+    (by rintro rid e (⟨_, _, h⟩ | ⟨_, _, _, h⟩ | ⟨_, _, _, h⟩) <;> cases h)
+    (by rintro l (⟨_, _, h⟩ | ⟨_, _, _, h⟩ | ⟨_, _, _, h⟩) <;> cases h)
+    (by rintro (⟨_, _, h⟩ | ⟨_, _, _, h⟩ | ⟨_, _, _, h⟩) <;> cases h)
+    (fun hs => ⟨fun _ _ _ => hs, fun _ _ _ => hs, fun _ _ _ _ => hs, fun _ _ _ _ => hs⟩)
+    (by intro o ho; cases ho)
+  exact h o ho hd
 
 /-- Tampering (bad tag/ciphertext = `garbage`, wrong associated data, a nonce differing from the
 header's) never leads to a delivery. -/
@@ -22,7 +32,19 @@ theorem tamper_rejected (c : Cfg) (s : HState) (src : Addr) (srcId nonce : Nat) 
     ∀ o ∈ (step c s (.dgram src (.message srcId nonce ct))).2,
       (∀ na rid b, o ≠ .request na rid b) ∧ (∀ na rid rb, o ≠ .response na rid rb) ∧
       (∀ r a d, o ≠ .established r a d) := by
-  sorry
+  have hns : ¬ SealedFor s { id := srcId, addr := src } nonce ct := by
+    rintro ⟨key, ctr, pt, sess, stamp, rfl, -, -⟩
+    rcases h with h | ⟨k, n, ctr', pt', ok, h, h'⟩
+    · cases h
+    · cases h; rcases h' with h' | h'
+      · cases h'
+      · exact h' rfl
+  exact handleMessage_out c { id := srcId, addr := src } nonce ct
+    (fun o => (∀ na rid b, o ≠ .request na rid b) ∧ (∀ na rid rb, o ≠ .response na rid rb) ∧
+      (∀ r a d, o ≠ .established r a d)) (s, [])
+    (by intros; simp) (by intros; simp) (by simp)
+    (fun hs => absurd hs hns)
+    (by intro o ho; cases ho)
 
 /-- Attribution follows the session: every delivered request or response names exactly the node
 address (claimed source id, source address) under which the decrypting session is stored. -/
@@ -31,13 +53,28 @@ theorem delivery_attributed_to_session_key (c : Cfg) (s : HState) (src : Addr) (
     ((∃ b, Out.request na rid b ∈ (step c s (.dgram src (.message srcId nonce ct))).2) ∨
      (∃ rb, Out.response na rid rb ∈ (step c s (.dgram src (.message srcId nonce ct))).2)) →
     na = { id := srcId, addr := src } := by
-  sorry
+  have h := handleMessage_out c { id := srcId, addr := src } nonce ct
+    (fun o => ∀ na' rid', ((∃ b, o = .request na' rid' b) ∨ (∃ rb, o = .response na' rid' rb)) →
+      na' = { id := srcId, addr := src }) (s, [])
+    (by rintro _ _ _ _ (⟨_, h⟩ | ⟨_, h⟩) <;> cases h)
+    (by rintro _ _ _ (⟨_, h⟩ | ⟨_, h⟩) <;> cases h)
+    (by rintro _ _ (⟨_, h⟩ | ⟨_, h⟩) <;> cases h)
+    (fun _ => ⟨(by rintro _ _ _ _ (⟨_, h⟩ | ⟨_, h⟩) <;> cases h <;> rfl),
+      (by rintro _ _ _ _ (⟨_, h⟩ | ⟨_, h⟩) <;> cases h <;> rfl),
+      (by rintro _ _ _ _ _ (⟨_, h⟩ | ⟨_, h⟩) <;> cases h),
+      (by rintro _ _ _ _ _ (⟨_, h⟩ | ⟨_, h⟩) <;> cases h)⟩)
+    (by intro o ho; cases ho)
+  rintro (⟨b, hb⟩ | ⟨rb, hb⟩)
+  · exact h _ hb na rid (Or.inl ⟨b, rfl⟩)
+  · exact h _ hb na rid (Or.inr ⟨rb, rfl⟩)
 
 /-- The two directions of a session never share a key (a node cannot be fed its own ciphertexts). -/
 theorem keys_directional (c : Cfg) (evs : List Ev) :
     ∀ e ∈ (run c evs).sessions, e.2.1.keys.enc ≠ e.2.1.keys.dec ∧
       ∀ old, e.2.1.oldKeys = some old → old.enc ≠ old.dec := by
-  sorry
+  intro e he
+  have h := (run_B c evs).2 e he
+  exact ⟨fun heq => h.1 (by rw [heq]), fun old ho heq => h.2 old ho (by rw [heq])⟩
 
 /-! ### C19 -/
 
@@ -55,14 +92,13 @@ theorem encrypt_advances_counter (c : Cfg) (sess : Session) (pt : Msg) (st : HSt
     ((encryptMessage c sess pt).run st).1.1.counter = sess.counter + 1 ∧
     ∃ n, ((encryptMessage c sess pt).run st).1.2 =
       .message c.localId n (.enc sess.keys.enc n (sess.counter + 1) pt true) := by
-  sorry
+  exact ⟨rfl, _, rfl⟩
 
 /-! ### C15 (handler part) -/
 
 /-- The session cache never exceeds its capacity. -/
 theorem sessions_bounded (c : Cfg) (evs : List Ev) (hc : 1 ≤ c.sessionCap) :
-    (run c evs).sessions.length ≤ c.sessionCap := by
-  sorry
+    (run c evs).sessions.length ≤ c.sessionCap := (run_B c evs).1
 
 /-- A session idle for longer than the timeout is never used again: the accessor through which
 every use goes reports it absent and drops it. -/
@@ -70,7 +106,14 @@ theorem expired_session_absent (c : Cfg) (na : NA) (st : HState × List Out) (se
     (hf : st.1.sessions.find? (·.1 == na) = some (na, sess, stamp)) (hx : stamp + c.sessionTtl < st.1.rt) :
     ((sessGetMut c na).run st).1 = none ∧
     ((sessGetMut c na).run st).2.1.sessions.all (·.1 != na) = true := by
-  sorry
+  show wp (sessGetMut c na) (fun r st' => r = none ∧ st'.1.sessions.all (·.1 != na) = true) st
+  rw [wp_sessGetMut]
+  refine ⟨fun h => (by rw [hf] at h; cases h), fun x sess' stamp' hf' => ⟨fun _ => ⟨rfl, ?_⟩, fun h => absurd ?_ h⟩⟩
+  · simp [List.all_filter]
+  · rw [hf] at hf'
+    simp only [Option.some.injEq, Prod.mk.injEq] at hf'
+    obtain ⟨-, rfl, rfl⟩ := hf'
+    exact hx
 
 /-- … so the next request to that peer starts a fresh handshake (a random packet, not a message
 sealed under the old keys), and a message from that peer is answered with a who-are-you query. -/
@@ -80,13 +123,41 @@ theorem expired_session_not_used (c : Cfg) (s : HState) (na : NA) (sess : Sessio
     (∀ r rid body o, o ∈ (step c s (.appRequest { na := na, record := r } rid body)).2 →
         ∀ dst src n k n' ctr pt ok, o ≠ .send dst (.message src n (.enc k n' ctr pt ok))) ∧
     (∀ nonce ct, (step c s (.dgram na.addr (.message na.id nonce ct))).2 = [.wru na nonce]) := by
-  sorry
+  constructor
+  · intro r rid body
+    have h : wp (stepM c (.appRequest { na := na, record := r } rid body))
+        (fun _ => AllOut NotSealedSend) (s, []) := by
+      unfold stepM
+      rw [wp_bind]
+      refine wp_mono (sendRequest_expired c s na sess stamp r rid body false hf hx hl NotSealedSend (by intro _ _; unfold NotSealedSend; simp)) (fun a st' h' => ?_)
+      cases a with
+      | none => exact h'
+      | some e => simp only []; cr_wpsimp; exact AllOut.snoc h' (by unfold NotSealedSend; simp)
+    exact h
+  · intro nonce ct
+    show wp (handleMessage c na nonce ct) (fun _ st' => st'.2 = [.wru na nonce]) (s, [])
+    unfold handleMessage
+    rw [wp_bind, wp_sessGetMut]
+    refine ⟨fun h => (by rw [hf] at h; cases h), fun x sess' stamp' hf' => ⟨fun _ => rfl, fun h => absurd ?_ h⟩⟩
+    rw [hf] at hf'
+    simp only [Option.some.injEq, Prod.mk.injEq] at hf'
+    obtain ⟨-, rfl, rfl⟩ := hf'
+    exact hx
 
 /-- When the cache is full the least recently used session (the head) is the one dropped. -/
 theorem eviction_is_lru (c : Cfg) (na : NA) (sess : Session) (st : HState × List Out)
     (hn : st.1.sessions.all (·.1 != na) = true) (hfull : st.1.sessions.length = c.sessionCap)
     (hc : 1 ≤ c.sessionCap) :
     ((sessInsert c na sess).run st).2.1.sessions = st.1.sessions.drop 1 ++ [(na, sess, st.1.rt)] := by
-  sorry
+  have hfil : st.1.sessions.filter (·.1 != na) = st.1.sessions := by
+    rw [List.filter_eq_self]; simpa [List.all_eq_true] using hn
+  show (if (st.1.sessions.filter (·.1 != na) ++ [(na, sess, st.1.rt)]).length > c.sessionCap
+    then (st.1.sessions.filter (·.1 != na) ++ [(na, sess, st.1.rt)]).drop 1
+    else st.1.sessions.filter (·.1 != na) ++ [(na, sess, st.1.rt)]) = _
+  rw [hfil, if_pos (by simp [hfull])]
+  cases h : st.1.sessions with
+  | nil => simp [h] at hfull; omega
+  | cons x xs => simp
+
 
 end Discv5.H
